@@ -91,13 +91,13 @@ CHECKS = {
  "C01": dict(
   technique="bounded-exhaustive enumeration of block histories, each executed on a reference node and replayed on independently constructed replicas under enumerated nondeterminism policies (forced map-iteration seed, shifted wall clock, interleaved CheckTx/queries, construction order), all ABCI responses and app hashes compared",
   engine="E2",
-  text="996 histories (quick): every template of a 21-template alphabet (bank, multi-denomination, EVM transfer / create / a call dirtying 5 slots and 4 fresh accounts in unsorted order / bank-precompile query from a contract, staking and distribution precompiles, staking messages, clawback vesting account with two denominations, DAO fund / ratio transfer, liquidation with token-pair registration, ERC20 conversion, ERC20 transfer and ERC20 sent to the module address, full redeem, failing transactions, double-sign evidence, downtime) alone, every ordered pair in consecutive blocks and in one block; four governance flows that really pass (EVM params, fee-market params, ERC20 params, token-pair toggle) alone and followed by every template once in effect; five life-cycle chains (switch off, use, switch on, use); thorough adds pairs across a 30-day gap and all triples. The concrete blocks recorded on the reference node are replayed on 7 (thorough 23, triples 7) fresh replicas whose Go map iteration is forced (runtime overlay) to a distinct start bucket/offset, with time.Now shifted by 400 days, CheckTx/gRPC queries interleaved between ABCI calls (including eth_call / estimateGas that execute the EVM at the latest and at old heights, old heights first on some replicas) and a second app object constructed first. DeliverTx (code, data, gas, events, log), EndBlock (validator / consensus-param updates), BeginBlock events and Commit app hash must be identical; divergences are attributed by re-running with the sources separated.",
+  text="1183 histories (quick): every template of a 23-template alphabet (bank, multi-denomination, EVM transfer / create / a call dirtying 5 slots and 4 fresh accounts in unsorted order / bank-precompile query from a contract, staking and distribution precompiles, staking messages, clawback vesting account with two denominations, a grant with automatic staking, a vesting account spending through the EVM three times, DAO fund in two denominations / ratio transfer, liquidation with token-pair registration, ERC20 conversion, ERC20 transfer and ERC20 sent to the module address, full redeem, failing transactions, double-sign evidence, downtime) alone, every ordered pair in consecutive blocks and in one block; four governance flows that really pass (EVM params, fee-market params, ERC20 params, token-pair toggle) alone and followed by every template once in effect; six life-cycle chains (switch off, use, switch on, use; two day-epoch boundaries 24 h apart); thorough adds pairs across a 30-day gap and all triples. The concrete blocks recorded on the reference node are replayed on 7 (thorough 23, triples 7) fresh replicas whose Go map iteration is forced (runtime overlay) to a distinct start bucket/offset, with time.Now shifted by 400 days, CheckTx/gRPC queries interleaved between ABCI calls (including eth_call / estimateGas that execute the EVM at the latest and at old heights, old heights first on some replicas) and a second app object constructed first. DeliverTx (code, data, gas, events, log), EndBlock (validator / consensus-param updates), BeginBlock events and Commit app hash must be identical; divergences are attributed by re-running with the sources separated.",
   note="One forced random word for all maps at a time. Validator set of 2. ABCI level (no consensus engine). The DeliverTx log is compared up to its first line break (SDK errors formatted with %+v append the process call stack; ABCI declares the log non-deterministic).",
   design="DESIGN.md §3 C01"),
  "C20": dict(
   technique="bounded-exhaustive enumeration of block histories x every block boundary as a restart point (crash-point enumeration), restarted replica compared call by call with a never-stopped reference node",
   engine="E2",
-  text="261 histories (quick; thorough ~1400): every base template alone, a third (thorough: all) of ordered pairs, governance flows that really pass and execute (EVM params: EnableCreate off and one precompile deactivated; fee-market params with a base-fee activation height; ERC20 params; token-pair conversion toggle) alone and followed by every base template once in effect, and five life-cycle chains of 5-6 steps in which a switch is turned off and on again with uses in between (token pair, ERC20 hook, EVM params, fee market). For EVERY boundary k of every history a replica is stopped after Commit k and a new Haqq is constructed on the database (same DB / key-by-key copy / twice). Compared with the reference: Info() height and app hash, a battery of 27 gRPC queries after every commit, every later ABCI response and app hash.",
+  text="301 histories (quick; thorough ~1700): every base template alone, a third (thorough: all) of ordered pairs, governance flows that really pass and execute (EVM params: EnableCreate off and one precompile deactivated; fee-market params with a base-fee activation height; ERC20 params; token-pair conversion toggle) alone and followed by every base template once in effect, and six life-cycle chains: five of 5-6 steps in which a switch is turned off and on again with uses in between (token pair, ERC20 hook, EVM params, fee market), and one crossing two day-epoch boundaries 24 h apart. For EVERY boundary k of every history a replica is stopped after Commit k and a new Haqq is constructed on the database (same DB / key-by-key copy / twice). Compared with the reference: Info() height and app hash, a battery of 27 gRPC queries after every commit, every later ABCI response and app hash.",
   note="MemDB kept across the restart; torn writes inside a commit are not modelled. Software-upgrade plans cannot be exercised (the upgrade module panics by design for a scheduled plan whose handler is already in the binary).",
   design="DESIGN.md §3 C20"),
  "C14": dict(
@@ -109,13 +109,13 @@ CHECKS = {
  "C15": dict(
   technique="bounded-exhaustive enumeration of block histories executed with real blocks; every registered invariant evaluated on the committed state after every block",
   engine="E2",
-  text="1485 histories (quick): every template alone, every ordered pair in consecutive blocks and in one block over 27 templates (bank, EVM incl. contract creation and multi-account dirtying, staking / distribution precompiles, staking messages, clawback vesting, DAO, liquidation + token-pair registration, ERC20 conversion / transfer / transfer to the module address, full redeem, failing transactions, double-sign evidence, downtime, four governance flows with deposits, and two adversarial templates: coins pushed at the bonded / not-bonded / distribution / gov module accounts by MsgSend, MsgMultiSend with one and two outputs, a foreign denomination and EVM value; a governance deposit in two denominations burnt after a veto); thorough adds all triples of base templates. After each of the ~6700 commits all 12 crisis-keeper invariant routes (bank supply / non-negative, staking pools / shares / power, distribution can-withdraw / reference-count / module-account, gov module-account) are evaluated.",
+  text="1711 histories (quick): every template alone, every ordered pair in consecutive blocks and in one block over 29 templates (bank, EVM incl. contract creation and multi-account dirtying, staking / distribution precompiles, staking messages, clawback vesting, DAO, liquidation + token-pair registration, ERC20 conversion / transfer / transfer to the module address, full redeem, failing transactions, double-sign evidence, downtime, four governance flows with deposits, and two adversarial templates: coins pushed at the bonded / not-bonded / distribution / gov module accounts by MsgSend, MsgMultiSend with one and two outputs, a foreign denomination and EVM value; a governance deposit in two denominations burnt after a veto); thorough adds all triples of base templates. After each of the ~7700 commits all 12 crisis-keeper invariant routes (bank supply / non-negative, staking pools / shares / power, distribution can-withdraw / reference-count / module-account, gov module-account) are evaluated.",
   note="Invariants are evaluated between blocks on committed state. The E1 drivers C14 and C19 evaluate the same routes in their own states.",
   design="DESIGN.md §3 C15"),
  "C19": dict(
   technique="bounded-exhaustive enumeration of block histories, each followed by an export -> InitChain on a fresh node -> export cycle with a leaf-by-leaf diff of the two genesis documents, a query battery and invariants",
   engine="E2",
-  text="202 histories (quick): idle chain, every template (21 base + 4 governance flows) alone exported after settling and exported right after its block, a quarter (thorough: all) of ordered pairs plus curated pairs whose second step consumes what the first created (liquidate then full redeem / convert / liquidate again, delegate then undelegate, ...), the five life-cycle chains exported after (every second; thorough: every) block, thorough: one chain of all templates. A's export is imported into a fresh Haqq by real InitChain + Commit, exported again and the two JSON documents are compared leaf by leaf (per module / field); 27 gRPC queries plus by-key queries for every token pair (by denomination and by contract), liquid denomination and DAO holder of the exporting node are compared on both nodes; each named module's exported state must pass its own ValidateGenesis; all invariants must hold on the imported node.",
+  text="233 histories (quick): idle chain, every template (23 base + 4 governance flows) alone exported after settling and exported right after its block, a quarter (thorough: all) of ordered pairs plus curated pairs whose second step consumes what the first created (liquidate then full redeem / convert / liquidate again, delegate then undelegate, ...), the six life-cycle chains exported after (every second; thorough: every) block, thorough: one chain of all templates. A's export is imported into a fresh Haqq by real InitChain + Commit, exported again and the two JSON documents are compared leaf by leaf (per module / field); 27 gRPC queries plus by-key queries for every token pair (by denomination and by contract), liquid denomination and DAO holder of the exporting node are compared on both nodes; each named module's exported state must pass its own ValidateGenesis; all invariants must hold on the imported node.",
   note="ibc 09-localhost latest_height is the exporting height by definition and is excluded from the equality. ValidateGenesis of third-party modules (ibc's connection-localhost) is not demanded. A history that empties the validator set (halted chain) is skipped and counted.",
   design="DESIGN.md §3 C19"),
  "C10": dict(
